@@ -146,6 +146,17 @@ struct VFilter {
 	delay_us: u64,
 }
 
+/// `throttle_ms` value standing for a window that never ends by itself (`Duration::MAX`: "flush only on urgent")
+pub const UNBOUNDED_MS: u64 = u64::MAX;
+
+pub fn thr(ms: u64) -> Duration {
+	if ms == UNBOUNDED_MS {
+		Duration::MAX
+	} else {
+		Duration::from_millis(ms)
+	}
+}
+
 pub fn ev_id(ev: &Event) -> Option<u64> {
 	ev.metadata.get("verif-id").and_then(|v| v.first()).and_then(|s| s.parse().ok())
 }
@@ -279,7 +290,7 @@ async fn drive(s: &Synth) -> History {
 	let mut config = Config::default();
 	config.event_channel_size = s.chan;
 	config.error_channel_size = s.err_chan;
-	config.throttle(Duration::from_millis(s.throttle_ms));
+	config.throttle(thr(s.throttle_ms));
 	config.filterer(VFilter { calls: filter_calls.clone(), delay_us: s.filter_delay_us });
 
 	let record = {
@@ -473,7 +484,9 @@ async fn drive(s: &Synth) -> History {
 	};
 
 	// bounded progress: wait for every expected delivery (cap), while main is alive
-	let cap = Duration::from_millis(s.throttle_ms.max(s.throttle_changes.iter().map(|c| c.1).max().unwrap_or(0)) * 3 + if s.starve_with.is_some() { 3_000 } else { 10_000 });
+	// (an unbounded window ends with the scenario's own urgent event: 10 s is the whole allowance there)
+	let longest = s.throttle_ms.max(s.throttle_changes.iter().map(|c| c.1).max().unwrap_or(0));
+	let cap = Duration::from_millis(if longest >= 1_000_000 { 0 } else { longest * 3 } + if s.starve_with.is_some() { 3_000 } else { 10_000 });
 	let wait_start = std::time::Instant::now();
 	loop {
 		let done = {
@@ -499,7 +512,7 @@ async fn drive(s: &Synth) -> History {
 	changer.abort();
 	// late duplicates would show up now
 	let maxthr = s.throttle_ms.max(s.throttle_changes.iter().map(|c| c.1).max().unwrap_or(0));
-	tokio::time::sleep(Duration::from_millis((2 * maxthr + 20).min(1500))).await;
+	tokio::time::sleep(Duration::from_millis((maxthr.saturating_mul(2).saturating_add(20)).min(1500))).await;
 
 	// quit through a dedicated urgent event
 	if !main_done.load(Ordering::SeqCst) {
